@@ -101,7 +101,10 @@ SIGNATURES = {"stale_parsed_while_pooled": sig_stale_parsed_while_pooled,
 
 
 def build_model():
-    return fw.ocaml_model("C06", ["Model/ClientConn.vo"])
+    try:
+        return fw.ocaml_model("C06", ["Model/ClientConn.vo"])
+    except Exception as e:  # noqa  (e.g. the generated file is missing because the translator failed closed)
+        return False, f"model build failed: {e!r}"
 
 
 # ---------------------------------------------------------------------------------------------
